@@ -41,6 +41,9 @@ func vrf_ite_str(c bool, a, b string) string { panic("vrf intrinsic") }
 func vrf_strsuffix(s, suffix string) bool { panic("vrf intrinsic") }
 func vrf_strprefix(s, prefix string) bool { panic("vrf intrinsic") }
 func vrf_strcontains(s, sub string) bool  { panic("vrf intrinsic") }
+func vrf_yield()                          { panic("vrf intrinsic") }
+func vrf_advance_time(ms int)             { panic("vrf intrinsic") }
+func vrf_blocked_goroutines() int         { panic("vrf intrinsic") }
 func vrf_now() int64                      { panic("vrf intrinsic") }
 func vrf_locks_held() int                 { panic("vrf intrinsic") }
 func vrf_uf_bool(name string, arg string) bool  { panic("vrf intrinsic") }
@@ -200,6 +203,11 @@ func vrf_now() int64 {
 	return time.Now().UnixNano()
 }
 func vrf_locks_held() int { return 0 }
+func vrf_yield()          { time.Sleep(20 * time.Millisecond) }
+func vrf_advance_time(ms int) {
+	time.Sleep(time.Duration(ms) * time.Millisecond)
+}
+func vrf_blocked_goroutines() int { return 0 }
 func vrf_strsuffix(s, suffix string) bool { return len(s) >= len(suffix) && s[len(s)-len(suffix):] == suffix }
 func vrf_strprefix(s, prefix string) bool { return len(s) >= len(prefix) && s[:len(prefix)] == prefix }
 func vrf_strcontains(s, sub string) bool {
